@@ -194,7 +194,14 @@ impl Report {
                 (Some(a), Some(b)) => {
                     self.extra.insert(k, json!(a + b));
                 }
-                _ => { self.extra.entry(k).or_insert(v); }
+                _ => {
+                    // lists are concatenated, anything else keeps the first value
+                    if let (Some(a), Some(b)) = (self.extra.get(&k).and_then(|x| x.as_array()).cloned(), v.as_array()) {
+                        let mut a = a; a.extend(b.iter().cloned());
+                        self.extra.insert(k, json!(a));
+                    }
+                    else { self.extra.entry(k).or_insert(v); }
+                }
             }
         }
     }
